@@ -454,8 +454,8 @@ Plan gen_C03(Gen &g, Plan p)
 // C04 ------------------------------------------------------------------------
 Plan gen_C04(Gen &g, Plan p)
 {
-    static const char *fams[] = { "H1", "H1", "H2", "H3", "H4a", "H4b", "H4c", "H5", "H5" };
-    std::string fam = fams[g.r.below(9)];
+    static const char *fams[] = { "H1", "H1", "H2", "H3", "H4a", "H4b", "H4c", "H5", "H5", "H6", "H6" };
+    std::string fam = fams[g.r.below(11)];
     p.cfg["family"] = QString::fromStdString(fam);
     p.target = fam == "H4c" ? "singleton" : (g.r.chance(1, 2) ? "logger" : "bare");
     p.app = fam != "H4b";
@@ -549,6 +549,40 @@ Plan gen_C04(Gen &g, Plan p)
         if (g.r.chance(1, 2))
             p.main_ops.push_back(mkop("destroy_app"));
         p.main_ops.push_back(mkop("exit"));
+    } else if (fam == "H6") {
+        // stops (and restarts) issued by another thread while the main thread runs its event loop
+        std::vector<Op> st;
+        int cycles = (int)g.r.range(1, 3);
+        for (int c = 0; c < cycles; c++) {
+            if (g.r.chance(1, 2))
+                st.push_back(g.r.chance(1, 2) ? mkop("yield") : mkop("sleep", (int)g.r.range(1, 30000)));
+            if (g.r.chance(1, 3))
+                st.push_back(gen_log(g, false));
+            st.push_back(mkop("reset"));
+            if (c + 1 < cycles) {
+                if (g.r.chance(1, 3))
+                    st.push_back(gen_log(g, false));
+                st.push_back(mkop("move"));
+            }
+        }
+        if (g.r.chance(1, 3)) {
+            // quit posted before the last stop: the main thread's aboutToQuit stop races with it
+            size_t at = st.size() - 1;
+            st.insert(st.begin() + at, mkop("post_quit"));
+        } else {
+            st.push_back(mkop("post_quit"));
+        }
+        p.producers.push_back(st);
+        p.main_ops.push_back(mkop("move"));
+        main_logs(0, 8);
+        spawn_all();
+        p.main_ops.push_back(mkop("spawn", np + 1));
+        maybe_gate();
+        p.main_ops.push_back(mkop("exec_wait"));
+        main_logs(0, 2);
+        p.main_ops.push_back(mkop("join", -1));
+        main_logs(0, 2);
+        p.main_ops.push_back(mkop("destroy"));
     } else { // H5
         int cycles = (int)g.r.range(1, 5);
         spawn_all();
